@@ -53,8 +53,9 @@ func progCodeRom(hdr string, segs []string) []byte {
 }
 
 type asm struct {
-	b []byte
-	r *rng
+	b    []byte
+	r    *rng
+	emph string
 }
 
 func (a *asm) e(bs ...int) {
@@ -127,33 +128,34 @@ const (
 	skCart
 	skDIV
 	skOAMTouch
+	skSpriteStorm
 	skKinds
 )
 
 var progWeights = map[string][skKinds]int{
-	//        IOW IOR MW MR  DL DMA INT HLT TIM AUD LCD STK ALU CRT DIV OAM
-	"":    {6, 6, 5, 5, 6, 2, 3, 2, 3, 3, 3, 3, 5, 2, 1, 2},
-	"C02": {2, 2, 3, 3, 4, 6, 4, 4, 3, 0, 1, 5, 10, 0, 1, 2},
-	"C03": {2, 3, 4, 4, 3, 6, 3, 2, 3, 0, 2, 5, 8, 0, 1, 4},
-	"C04": {3, 3, 2, 2, 5, 1, 10, 5, 5, 0, 3, 5, 3, 0, 1, 0},
-	"C05": {3, 3, 2, 2, 5, 1, 8, 10, 5, 0, 3, 3, 3, 0, 1, 0},
-	"C06": {10, 10, 8, 8, 3, 2, 1, 1, 3, 1, 2, 1, 2, 3, 2, 2},
-	"C07": {10, 10, 8, 8, 3, 2, 1, 1, 3, 2, 3, 1, 2, 3, 2, 2},
-	"C09": {2, 2, 4, 4, 3, 2, 1, 1, 1, 0, 1, 1, 2, 14, 0, 0},
-	"C10": {2, 2, 3, 3, 8, 1, 1, 1, 1, 0, 1, 1, 2, 14, 0, 0},
-	"C11": {3, 3, 4, 4, 3, 2, 1, 1, 1, 0, 1, 1, 2, 14, 0, 0},
-	"C12": {4, 6, 1, 1, 6, 1, 4, 3, 14, 0, 0, 1, 2, 0, 6, 0},
-	"C13": {3, 6, 2, 2, 8, 1, 4, 3, 1, 0, 12, 1, 2, 0, 0, 1},
-	"C14": {3, 6, 2, 2, 8, 1, 6, 4, 1, 0, 12, 1, 2, 0, 0, 1},
-	"C15": {2, 2, 8, 2, 6, 4, 1, 1, 0, 0, 12, 1, 2, 0, 0, 4},
-	"C16": {2, 3, 5, 5, 4, 12, 2, 1, 1, 0, 3, 2, 3, 2, 0, 5},
-	"C17": {2, 3, 3, 3, 4, 4, 2, 1, 1, 0, 6, 5, 5, 0, 0, 12},
-	"C18": {6, 8, 1, 1, 4, 0, 1, 1, 1, 14, 0, 1, 1, 0, 2, 0},
-	"C19": {4, 6, 1, 1, 8, 0, 1, 1, 1, 14, 0, 1, 1, 0, 2, 0},
-	"C20": {4, 4, 1, 1, 8, 0, 1, 2, 2, 12, 0, 1, 1, 0, 5, 0},
-	"C21": {4, 4, 1, 1, 8, 0, 1, 1, 1, 14, 0, 1, 1, 0, 2, 0},
-	"C22": {8, 8, 1, 1, 4, 0, 4, 3, 1, 0, 0, 1, 2, 0, 0, 0},
-	"C23": {10, 6, 1, 1, 4, 0, 3, 2, 1, 0, 0, 1, 2, 0, 0, 0},
+	//        IOW IOR MW MR  DL DMA INT HLT TIM AUD LCD STK ALU CRT DIV OAM STORM
+	"": {6, 6, 5, 5, 6, 2, 3, 2, 3, 3, 3, 3, 5, 2, 1, 2, 1},
+	"C02": {2, 2, 3, 3, 4, 6, 4, 4, 3, 0, 1, 5, 10, 0, 1, 2, 1},
+	"C03": {2, 3, 4, 4, 3, 6, 3, 2, 3, 0, 2, 5, 8, 0, 1, 4, 1},
+	"C04": {3, 3, 2, 2, 5, 1, 10, 5, 5, 0, 3, 5, 3, 0, 1, 0, 1},
+	"C05": {3, 3, 2, 2, 5, 1, 8, 10, 5, 0, 3, 3, 3, 0, 1, 0, 1},
+	"C06": {10, 10, 8, 8, 3, 2, 1, 1, 3, 1, 2, 1, 2, 3, 2, 2, 1},
+	"C07": {10, 10, 8, 8, 3, 2, 1, 1, 3, 2, 3, 1, 2, 3, 2, 2, 1},
+	"C09": {2, 2, 4, 4, 3, 2, 1, 1, 1, 0, 1, 1, 2, 14, 0, 0, 0},
+	"C10": {2, 2, 3, 3, 8, 1, 1, 1, 1, 0, 1, 1, 2, 14, 0, 0, 0},
+	"C11": {3, 3, 4, 4, 3, 2, 1, 1, 1, 0, 1, 1, 2, 14, 0, 0, 4},
+	"C12": {4, 6, 1, 1, 6, 1, 4, 3, 14, 0, 0, 1, 2, 0, 6, 0, 0},
+	"C13": {3, 6, 2, 2, 8, 1, 4, 3, 1, 0, 12, 1, 2, 0, 0, 1, 3},
+	"C14": {3, 6, 2, 2, 8, 1, 6, 4, 1, 0, 12, 1, 2, 0, 0, 1, 3},
+	"C15": {2, 2, 8, 2, 6, 4, 1, 1, 0, 0, 12, 1, 2, 0, 0, 4, 4},
+	"C16": {2, 3, 5, 5, 4, 12, 2, 1, 1, 0, 3, 2, 3, 2, 0, 5, 2},
+	"C17": {2, 3, 3, 3, 4, 4, 2, 1, 1, 0, 6, 5, 5, 0, 0, 12, 4},
+	"C18": {6, 8, 1, 1, 4, 0, 1, 1, 1, 14, 0, 1, 1, 0, 2, 0, 0},
+	"C19": {4, 6, 1, 1, 8, 0, 1, 1, 1, 14, 0, 1, 1, 0, 2, 0, 0},
+	"C20": {4, 4, 1, 1, 8, 0, 1, 2, 2, 12, 0, 1, 1, 0, 5, 0, 0},
+	"C21": {4, 4, 1, 1, 8, 0, 1, 1, 1, 14, 0, 1, 1, 0, 2, 0, 0},
+	"C22": {8, 8, 1, 1, 4, 0, 4, 3, 1, 0, 0, 1, 2, 0, 0, 0, 0},
+	"C23": {10, 6, 1, 1, 4, 0, 3, 2, 1, 0, 0, 1, 8, 0, 0, 0, 0},
 }
 
 func (a *asm) audioSnippet() {
@@ -263,6 +265,13 @@ func (a *asm) aluSnippet() {
 		hl = a.memAddr()
 		if hl < 0x8000 {
 			hl = 0xc100
+		}
+	}
+	if r.chance(12) || (a.emph == "C23" && r.chance(50)) {
+		// read-modify-write instructions on I/O registers: the write-back is a bus write even if nothing changed
+		hl = []int{0xff01, 0xff01, 0xff02, 0xff04, 0xff05, 0xff06, 0xff07, 0xff0f, 0xff41, 0xff45, 0xff47, 0xff42, 0xff24, 0xff12, 0xffff, 0xff00}[r.intn(16)]
+		if a.emph == "C23" && r.chance(70) {
+			hl = 0xff01
 		}
 	}
 	a.e(0x21, hl&0xff, hl>>8)
@@ -443,6 +452,25 @@ func (a *asm) snippet(k int, subAddr int, st *progState) {
 		a.cartSnippet()
 	case skDIV:
 		a.io(0x04, int(r.byte()))
+	case skSpriteStorm:
+		// a work-RAM page filled with one byte (40 objects on the same lines), copied to OAM by DMA, then the LCD is
+		// switched off and on again many times with short on-phases
+		v := []int{0x10, 0x10, 0x18, 0x50, 0x90, int(r.byte())}[r.intn(6)]
+		a.e(0x21, 0x00, 0xc1, 0x06, 0xa0, 0x3e, v, 0x22, 0x05, 0x20, 0xfc) // LD HL,C100; LD B,A0; LD A,v; l: LD (HL+),A; DEC B; JR NZ,l
+		a.io(0x46, 0xc1)
+		a.delay(45)
+		n := 1 + r.intn(60)
+		on := 0x91 | r.intn(2)<<1 | r.intn(2)<<2
+		for j := 0; j < n; j++ {
+			a.io(0x40, on&0x7f)
+			if r.chance(30) {
+				a.delay(1 + r.intn(3))
+			}
+			a.io(0x40, on)
+			if r.chance(40) {
+				a.delay(1 + r.intn(40))
+			}
+		}
 	case skOAMTouch:
 		// 16-bit register pointing into OAM while it is incremented / decremented / pushed through
 		ad := 0xfe00 + r.intn(0x100)
@@ -483,7 +511,7 @@ func progCode(r *rng, emph string) string {
 		hdr = progCodeCarts[r.intn(len(progCodeCarts))]
 	}
 	const subAddr = 0x0068
-	a := &asm{r: r}
+	a := &asm{r: r, emph: emph}
 	// prologue
 	a.e(0x31, 0xf0, 0xdf, 0x11, 0x00, 0xd0) // LD SP,DFF0 ; LD DE,D000
 	st := &progState{}
